@@ -22,6 +22,9 @@ type c01World struct {
 	inSync int          // number of in-sync notifications seen so far (across restarts)
 	dead     bool       // the (faulted) node could not be restarted in place
 	tolerant bool       // storage faults are being injected: errors of the units are expected
+	// interleavings left: a peer message may be handled between the block processor's pop of a
+	// block and its ProcessBlock call (needs the property's source rewrite that inserts the point)
+	interleave int
 }
 
 func (w *c01World) pump() {
@@ -50,7 +53,17 @@ func (w *c01World) deliver() bool {
 }
 
 func (w *c01World) process() {
+	if w.interleave > 0 {
+		vkInterleave = func(point string) {
+			if w.interleave > 0 && len(w.peer.toNode) > 0 && verifrt.Choose("interleave: handle the next peer message at "+point, 2) == 1 {
+				w.interleave--
+				w.deliver()
+				verifrt.Reach("world.interleaved")
+			}
+		}
+	}
 	err := vkProcessRun(w.ctx, w.k.node)
+	vkInterleave = nil
 	if err != nil {
 		verifrt.Note("processing run failed at node height %d (tip %s): %v", w.k.node.blocks.LastHeight(), w.tree.byHash[*w.k.node.blocks.LastHash()], err)
 	}
